@@ -111,7 +111,7 @@ def complete (r : Receiver) (full : Bytes) : Step :=
     match decryptLengthHeader c r full with
     | none => .disconnect
     | some (len, r1) =>
-      if len < 1 then .disconnect
+      if len < 2 then .disconnect
       else .cont { r1 with buf := [], need := len + 16, isHeader := false } none
   else
     match decryptMessage c r full with
